@@ -10,7 +10,10 @@ attributes are attached and ptype names the factory; every non-exceptional path
 of the evaluator returns term + decorated function, ZeroDivisionError gives inf;
 sign analysis (k>0, h>0): the added term is zero on the feasible side and
 positive on the violated side; coupler.and_/or_/not_ aggregate with sum/min/
-negation.  NOT decided: numeric values.
+negation.  Round 4: coupler.and_/or_/not_ hand k=1 by default whatever ptype is (abstract
+interpretation of the settings prologue over all keyword scenarios);
+as_penalty.rnorm is the uncast Euclidean displacement.
+NOT decided: numeric values.
 """
 import ast
 
